@@ -146,7 +146,9 @@ class Gen:
 
     def atom(self, blocked, kinds=None):
         r = self.r
-        kinds = kinds or ("lit", "lit", "lit", "casei", "bin", "plus", "plus", "rep", "opt", "alt", "inv", "concat", "any", "cls")
+        kinds = kinds or ("lit", "lit", "lit", "casei", "bin", "plus", "plus", "rep", "opt", "alt", "inv", "concat", "any", "cls", "rich", "rich")
+        if self.bias.get("rich") and "rich" in kinds:
+            kinds = tuple(kinds) + ("rich",) * 8
         for _ in range(8):
             k = r.choice(kinds)
             a = self._atom(k, blocked)
@@ -224,6 +226,8 @@ class Gen:
             if blocked:
                 return None
             return Atom("/./", set(range(256)), set(), [r.choice((0, 255, 97, 10))])
+        if k == "rich":
+            return rich_regex(r, blocked, depth=r.choice((2, 3, 3)))
         if k == "concat":
             a = self.atom(blocked, ("lit", "casei", "rep", "cls"))
             b = self.atom(set(a.open), ("lit", "plus", "rep", "cls"))
@@ -622,7 +626,7 @@ def generate_nearmiss(rng):
     Small programs built around one construct whose control flow might go round without
     consuming input.  The compiler must either reject them or the parser must not spin.
     """
-    g = Gen(rng, want_yield=rng.random() < 0.4, want_eof=rng.random() < 0.2)
+    g = Gen(rng, want_yield=rng.random() < 0.5, want_eof=rng.random() < 0.2)
     r = rng
     decl = []
     n1, n2 = r.choice((2, 2, 3, 4)), r.choice((2, 3, 5))
@@ -656,7 +660,11 @@ def generate_nearmiss(rng):
         "n0 = [n0 + 1];", "b0 = true;", "%s" % y, "optional { %s; }" % B.text, "if n0 < 3 { %s; }" % B.text,
         "if b0 { %s; }" % B.text, "wait %s;" % B.text, "s1 += [65];", "s0 += [65];", "break;", "delete s0; s0 += %s;" % one,
     ]
-    catches = ["catch (outofspace)", "catch (nomatch)", "catch", "catch (nomatch, outofspace)"]
+    catches = ["catch (outofspace)", "catch (outofspace)", "catch (nomatch)", "catch", "catch (nomatch, outofspace)"]
+    # the shapes on which append, yield and the overflow redirect share one transition get extra weight
+    if y:
+        bodies += ["s0 += %s; %s" % (one, y)] * 3 + ["s0 += %s; h0(); %s" % (one, y), "s0 += %s; if n0 < 9 { n0 = [n0 + 1]; } %s" % (one, y)]
+    handlers += ["delete s0;"] * 3 + ["delete s0; h0();", "delete s0; s1 += [s0.len];"]
     body, handler, catch = r.choice(bodies), r.choice(handlers), r.choice(catches)
     t = "try { %s } %s { %s }" % (body, catch, handler)
     wraps = [
@@ -685,3 +693,268 @@ def generate_nearmiss(rng):
     samples = [pfx + fill * k for k in (1, n1, n1 + 1, n1 + n2 + 3)] + [pfx + fill * (n1 + 1) + B.sample + fill * 3,
                                                                        pfx + B.sample + fill * (n1 + 2), pfx + fill + b"\x00"]
     return {"source": src, "need": need, "canaries": {}, "samples": [s.hex() for s in samples], "near_miss": True, "has_strings": True}
+
+
+# ------------------------------------------------------------------ richer regexes (Glushkov first/last/follow)
+
+class RNode:
+    """tiny regex AST: kinds lit(chars) cat(a,b) alt(a,b) opt(a) star(a) plus(a) rep(a,n,m)"""
+
+    def __init__(self, kind, *kids, chars=None, n=None, m=None, text=None):
+        self.kind, self.kids, self.chars, self.n, self.m, self.text = kind, kids, chars, n, m, text
+
+
+def _rx_text(n):
+    k = n.kind
+    if k == "lit":
+        return n.text
+    if k == "cat":
+        return "".join(_rx_wrap(x, "cat") for x in n.kids)
+    if k == "alt":
+        return "|".join(_rx_text(x) for x in n.kids)
+    sub = _rx_wrap(n.kids[0], "post")
+    if k == "opt":
+        return sub + "?"
+    if k == "star":
+        return sub + "*"
+    if k == "plus":
+        return sub + "+"
+    if k == "rep":
+        return sub + ("{%d}" % n.n if n.m == n.n else "{%d,%d}" % (n.n, n.m))
+    raise ValueError(k)
+
+
+def _rx_wrap(n, ctx):
+    t = _rx_text(n)
+    if n.kind == "alt" or (ctx == "post" and n.kind in ("cat", "opt", "star", "plus", "rep")):
+        return "(" + t + ")"
+    return t
+
+
+def _rx_analyse(n):
+    """returns (nullable, first:set, last_positions, and fills follow) using position objects = lit nodes"""
+    k = n.kind
+    if k == "lit":
+        n.follow = set()
+        return False, {n}, {n}
+    if k == "cat":
+        nul, first, last = True, set(), set()
+        for x in n.kids:
+            xn, xf, xl = _rx_analyse(x)
+            for p in last:
+                p.follow |= xf
+            if nul:
+                first |= xf
+            last = (last | xl) if xn else set(xl)
+            nul = nul and xn
+        return nul, first, last
+    if k == "alt":
+        nul, first, last = False, set(), set()
+        for x in n.kids:
+            xn, xf, xl = _rx_analyse(x)
+            nul, first, last = nul or xn, first | xf, last | xl
+        return nul, first, last
+    xn, xf, xl = _rx_analyse(n.kids[0])
+    if k == "opt":
+        return True, xf, xl
+    if k in ("star", "plus") or (k == "rep" and n.m > 1):
+        if k in ("star", "plus"):
+            for p in xl:
+                p.follow |= xf
+            return (True if k == "star" else xn), xf, xl
+        # bounded repeat: treat as repeatable for first/follow purposes (over-approximation of `open`)
+        for p in xl:
+            p.follow |= xf
+        return (xn or n.n == 0), xf, xl
+    return (xn or n.n == 0), xf, xl
+
+
+def _rx_sample(r, n, depth=0):
+    k = n.kind
+    if k == "lit":
+        return bytes([r.choice(sorted(n.chars))])
+    if k == "cat":
+        return b"".join(_rx_sample(r, x, depth) for x in n.kids)
+    if k == "alt":
+        return _rx_sample(r, r.choice(n.kids), depth)
+    if k == "opt":
+        return _rx_sample(r, n.kids[0], depth) if r.random() < 0.6 else b""
+    if k == "star":
+        return b"".join(_rx_sample(r, n.kids[0], depth) for _ in range(r.choice((0, 1, 2, 3))))
+    if k == "plus":
+        return b"".join(_rx_sample(r, n.kids[0], depth) for _ in range(r.choice((1, 1, 2, 3))))
+    if k == "rep":
+        return b"".join(_rx_sample(r, n.kids[0], depth) for _ in range(r.randint(n.n, n.m)))
+    raise ValueError(k)
+
+
+def rich_regex(r, blocked, depth=3):
+    """random regex with nested groups / nullable parts; returns Atom or None"""
+    pool = [c for c in LETTERS[:10] + DIGITS[:4] + [ord(" "), ord("+"), ord("-")] if c not in blocked]
+    if len(pool) < 4:
+        return None
+
+    def leaf():
+        k = r.random()
+        if k < 0.5:
+            c = r.choice(pool)
+            return RNode("lit", chars={c}, text=esc_re_char(c))
+        if k < 0.7 and all(d in pool for d in DIGITS[:4]):
+            return RNode("lit", chars=set(DIGITS), text="\\d") if not (set(DIGITS) & blocked) else leaf()
+        a = r.choice(pool)
+        b = r.choice(pool)
+        cs = {a, b}
+        return RNode("lit", chars=cs, text="[%s]" % "".join(esc_set_char(c) for c in sorted(cs)))
+
+    def build(d):
+        if d <= 0 or r.random() < 0.25:
+            return leaf()
+        k = r.choice(("cat", "cat", "alt", "opt", "opt", "star", "plus", "rep"))
+        if k == "cat":
+            return RNode("cat", *[build(d - 1) for _ in range(r.choice((2, 2, 3)))])
+        if k == "alt":
+            return RNode("alt", build(d - 1), build(d - 1))
+        if k == "rep":
+            n = r.choice((1, 2))
+            return RNode("rep", build(d - 1), n=n, m=n + r.choice((0, 1, 2)))
+        return RNode(k, build(d - 1))
+
+    for _ in range(6):
+        node = build(depth)
+        nul, first, last = _rx_analyse(node)
+        if nul:
+            c = r.choice(pool)
+            node = RNode("cat", node, RNode("lit", chars={c}, text=esc_re_char(c)))
+            nul, first, last = _rx_analyse(node)
+        fchars = set().union(*[p.chars for p in first]) if first else set()
+        if not fchars or (fchars & blocked):
+            continue
+        ochars = set()
+        for p in last:
+            for q in p.follow:
+                ochars |= q.chars
+        text = "/" + _rx_text(node) + "/"
+        if len(text) > 60:
+            continue
+        return Atom(text, fchars, ochars, _rx_sample(r, node))
+    return None
+
+
+# ------------------------------------------------------------------ string lifecycle programs (C03 / C12)
+
+def generate_lifecycle(rng, noindex=False):
+    """
+    Programs about the allocation lifecycle of string outputs: defaults, deletes in every
+    kind of place (plain, inside action-only if/else, right after a loop left through a
+    conditional break, in a case clause, in a catch handler), followed by uses of the
+    same string (append match, char append, constant assignment, index read, length).
+    """
+    r = rng
+    g = Gen(r, want_yield=False, want_eof=r.random() < 0.2, bias={"noindex": False})
+    decl = []
+    strs = []
+    for i in range(r.choice((1, 2, 2))):
+        size = r.choice((3, 4, 6, 9))
+        unterm = r.random() < 0.2
+        cap = size if unterm else size - 1
+        d = "out %sstr[%d] s%d" % ("unterminated " if unterm else "", size, i)
+        if r.random() < 0.65:
+            d += " = " + esc_str([r.choice(LETTERS) for _ in range(r.randrange(0, cap + 1))])
+        decl.append(d + ";")
+        strs.append({"name": "s%d" % i, "size": size, "unterm": unterm, "cap": cap})
+        decl.append("out int{size 1} zc%d = 90;" % i)
+        g.canaries["zc%d" % i] = 90
+    decl += ["out int n0 = 0;", "out int n1 = 0;", "out bool b0 = false;", "hook h0;", "hook h1;"]
+    body = []
+    sample = b""
+    marks = [c for c in PUNCT]
+    r.shuffle(marks)
+    for ep in range(r.choice((2, 3, 4))):
+        s = r.choice(strs)
+        name = s["name"]
+        m = marks[ep % len(marks)]
+        body.append("%s;" % esc_str([m]))
+        sample += bytes([m])
+        place = r.choice(("plain", "if", "ifelse", "afterloop", "case", "handler", "none", "twice"))
+        if place == "plain":
+            body.append("delete %s;" % name)
+        elif place == "twice":
+            body += ["delete %s;" % name, "delete %s;" % name]
+        elif place == "if":
+            body += ["n0 = [$last];", "if n0 == %d { delete %s; }" % (m, name)]
+        elif place == "ifelse":
+            body += ["if b0 { n1 = 1; } else { delete %s; b0 = true; }" % name]
+        elif place == "afterloop":
+            body += ["n1 = 0;", "loop { /[0-9]/; n1 = [n1 + 1]; if n1 == 2 { break; } }", "delete %s;" % name]
+            sample += bytes(r.choice(DIGITS) for _ in range(2))
+        elif place == "case":
+            a, b = r.sample(LETTERS[:6], 2)
+            body += ["case { %s -> { delete %s; } %s -> { n0 = 1; } }" % (esc_str([a]), name, esc_str([b]))]
+            sample += bytes([r.choice((a, a, b))])
+        elif place == "handler":
+            a = r.choice(LETTERS[6:12])
+            body += ["try { %s += /[%s]+/; \"|\"; } catch (outofspace) { delete %s; wait \"|\"; }" % (name, chr(a), name)]
+            sample += bytes([a]) * r.choice((1, s["cap"], s["cap"] + 2)) + b"|"
+        for _ in range(r.choice((1, 2))):
+            use = r.choice(("append", "append", "appc", "assign", "len" if noindex else "index", "len", "hook"))
+            if use == "append":
+                lo = r.choice((97, 103, 109))
+                body.append("%s += /[%s-%s]+/;" % (name, chr(lo), chr(lo + 5)))
+                body.append("\".\";")
+                sample += bytes(r.randint(lo, lo + 5) for _ in range(r.choice((1, 2, s["cap"], s["cap"] + 1)))) + b"."
+            elif use == "appc":
+                body.append("%s += [%s];" % (name, r.choice(("65", "$last", "n0 + 48"))))
+            elif use == "assign":
+                body.append("%s = %s;" % (name, esc_str([r.choice(LETTERS) for _ in range(r.randrange(0, s["cap"] + 1))])))
+            elif use == "index":
+                body.append("n1 = [%s[%d] + %s.len];" % (name, r.choice((0, 1, s["size"] - 1)), name))
+            elif use == "len":
+                body.append("if %s.len > 0 { h1(); }" % name)
+            else:
+                body.append("h0();")
+        body.append("h0();")
+    if r.random() < 0.4:
+        body = ["loop {"] + ["    " + x for x in body] + ["}"]
+        sample = sample * 2
+    src = "\n".join(decl) + "\n\nparser {\n" + "\n".join("    " + x for x in body) + "\n}\n"
+    need = ["-feof-support"] if g.want_eof else []
+    return {"source": src, "need": need, "canaries": dict(g.canaries), "samples": [sample.hex(), (sample[: len(sample) // 2]).hex()],
+            "near_miss": False, "has_strings": True}
+
+
+# ------------------------------------------------------------------ regex-centric programs (C20 and others)
+
+def generate_regexprog(rng):
+    """small programs whose behaviour is dominated by one to three non-trivial regexes"""
+    r = rng
+    decl = ["out str[12] s0;", "out int n0 = 0;", "hook h0;"]
+    body = []
+    sample = b""
+    samples = []
+    marks = [ord(c) for c in ";#@!"]
+    blocked = set()
+    for k in range(r.choice((1, 2, 2, 3))):
+        a = None
+        for _ in range(10):
+            a = rich_regex(r, blocked | set(marks), depth=r.choice((2, 3, 3)))
+            if a is not None and not (a.open & set(marks)):
+                break
+            a = None
+        if a is None:
+            continue
+        m = marks[k]
+        body.append(("s0 += %s;" if r.random() < 0.5 else "%s;") % a.text)
+        body.append("%s;" % esc_str([m]))
+        body.append(r.choice(("h0();", "n0 = [n0 + 1];", "h0();")))
+        sample += a.sample + bytes([m])
+        samples.append(sample)
+        blocked = set()
+    if not body:
+        body = ['"a";']
+        sample = b"a"
+    if r.random() < 0.4:
+        body = ["loop {"] + ["    " + x for x in body] + ["}"]
+        samples.append(sample * 2)
+    src = "\n".join(decl) + "\n\nparser {\n" + "\n".join("    " + x for x in body) + "\n}\n"
+    return {"source": src, "need": [], "canaries": {}, "samples": [s.hex() for s in samples[-3:]] or [sample.hex()], "near_miss": False,
+            "has_strings": True}
